@@ -307,6 +307,16 @@ def run_hist(spec):
         hist[col] = hist[col].astype(float)  # same column type in both files: only the hidden VALUES differ
         hist2.loc[js, col] = [float("nan"), float("inf")][(i // 3) % 2]
         out["counters"]["hist_hidden_value_not_finite"] = 1
+    if i % 2 == 1:
+        # the live feed also lists a unit the historical file does not know (a new precinct), somewhere in the middle:
+        # which rows are hidden is decided unit by unit, not by position
+        import pandas as _pd
+
+        j_ = int(rng.integers(1, max(2, len(feed) - 1)))
+        new_row = feed.iloc[[j_]].copy()
+        new_row["geographic_unit_fips"] = "10001_9" + str(int(rng.integers(10, 99)))
+        feed = _pd.concat([feed.iloc[:j_], new_row, feed.iloc[j_:]]).reset_index(drop=True)
+        out["counters"]["hist_feed_with_unknown_unit"] = 1
     cwd0 = os.getcwd()
     digests = []
     scratch = tempfile.mkdtemp(prefix="verif_c10_")
